@@ -85,6 +85,8 @@ GATEWAY = [
     ("*", r"^\('param', '(receive|send|start_response|chunk_size)'", "gateway-specific parameters"),
     ("*", r"^\('return', ", "WSGI returns/yields the body iterable, ASGI returns None after awaiting the sends"),
     ("*", r"^\('call', '(send_http_start|send_http_body|start_response|list_headers|run_in_threadpool|ensure_future)'", "gateway emit vocabulary (sequence checked by C05)"),
+    ("wsgi", r"^\('call', '\w+', \(.*\), \('as_bytes=False',\), ", "a shared header-listing helper asked for native strings (WSGI) / bytes (ASGI): the gateway's header type"),
+    ("asgi", r"^\('call', '\w+', \(.*\), \('as_bytes=True',\), ", "same"),
     ("*", r"^\('const', \"?'Unsupported lifespan", "ASGI lifespan guard"),
     ("*", r"^\('raise', \"RuntimeError\('Unsupported lifespan", "ASGI lifespan guard"),
 ]
@@ -99,7 +101,9 @@ SANCTIONED: Dict[Tuple[str, str], List[Tuple[str, str, str]]] = {
     ("requests", "Request.stream"): [("*", ALL, "reads wsgi.input (WSGI) vs receive() messages (ASGI); structure checked by C10")],
     ("requests", "Request.json"): [("*", r"^\('call', 'loads', \(\"(self\.body|_L)\.decode\(self\.content_type\.options\.get\('charset', 'utf8'\)\)\",\)", "ASGI first awaits the cached body future into a local; same decode expression")],
     ("requests", "Request.close"): [("*", r"'form' in self\.__dict__", "ASGI caches a future: it additionally requires the future to be done"), ("asgi", r"^\('const', \"'form'\"\)", "same"),
-                                    ("*", r"^\('call', 'close', \(\), \(\), \(('_L\.done\(\)',)?\)\)", "same, with the cache looked up EAFP-style: the ASGI side closes the form only when its future is done")],
+                                    ("*", r"^\('call', 'close', \(\), \(\), \(('_L\.done\(\)',)?\)\)", "same, with the cache looked up EAFP-style: the ASGI side closes the form only when its future is done"),
+                                    ("wsgi", r"^\('call', 'close', \(\), \(\), \((?=.*('form'|_L)).+\)\)$", "same, with the cache looked up through a helper / sentinel: closed only under a test of the cached form entry"),
+                                    ("asgi", r"^\('call', 'close', \(\), \(\), \((?=.*done\(\)).+\)\)$", "same: the ASGI side closes the form only when its cached future is done")],
     ("responses", "FileResponse.handle_all"): [("*", r"'(open|seek|create_send_or_zerocopy|open_for_sendfile)'|'rb'", "file reading: with open (WSGI) vs sendfile closure (ASGI); framing checked by C02")],
     ("responses", "FileResponse.handle_single_range"): [("*", r"'(open|seek|create_send_or_zerocopy|open_for_sendfile)'|'rb'", "file reading vocabulary (C02)")],
     ("responses", "FileResponse.handle_several_ranges"): [("*", r"'(open|seek|create_send_or_zerocopy|open_for_sendfile)'|'rb'", "file reading vocabulary (C02)")],
